@@ -230,7 +230,7 @@ class Realizer:
             bases.append("Generic[" + ", ".join(o.generic_params) + "]")
         if o.kind == "dataclass":
             L.extend(decos)
-            L.append("@dataclass(frozen=True)" if o.frozen else ("@dataclass" if o.dc_init else "@dataclass(init=False)"))
+            L.append("@dataclass(frozen=True)" if o.frozen else "@dataclass(slots=True)" if o.slots else ("@dataclass" if o.dc_init else "@dataclass(init=False)"))
             L.append(f"class {o.name}" + (f"({', '.join(bases)})" if bases else "") + ":")
             empty = True
             for f, e in zip(o.fields, field_exprs):
